@@ -107,10 +107,15 @@ CHECKS = {
                      'process tables',
                 note='signatures carry an event-during-handshake qualifier so that the known handshake-window finding does not '
                      'mask losses in steady state; which stopped-like state is shown is not compared'),
-    'C13': dict(engine='E2-seq', category='exploration', technique='bounded-exhaustive hostile message sequences injected into the real '
-                'listener of instances brought to isolation by real histories; non-interference on the full observable snapshot',
+    'C13': dict(engine='E1-cluster', category='model_checking', technique='explicit-state exploration of the real cores (slow '
+                'handshakes, requests on the wire, partitions, restarts, mismatching options) with an isolation monitor, plus '
+                'bounded-exhaustive hostile message sequences injected into the real listener of instances brought to isolation by '
+                'real histories; non-interference on the full observable snapshot',
                 ref='DESIGN.md section 4, C13',
-                text='isolation is reached by silence under auto_fence, by the NOT_AUTHORIZED answer (reciprocity) and by each strategy '
+                text='E1: once ISOLATED a status never changes, no XML-RPC leaves for an isolated peer, a peer that has held the local '
+                     'instance ISOLATED since before the current CHECKING period or whose strategies differ is never admitted, on '
+                     'every explored history (late reply of the last XML-RPC of a handshake, TICK on the wire, partition + healing, '
+                     'crash + restart, cold starts with differing options); hostile part: isolation is reached by silence under auto_fence, by the NOT_AUTHORIZED answer (reciprocity) and by each strategy '
                      'option differing; every sequence of forged publications / notifications up to length 2 (3 thorough) from the '
                      'isolated peer must leave the observable snapshot unchanged and cause no traffic towards it; process events '
                      'from STOPPED / CHECKING peers must be ignored; ISOLATED must survive a fair closure',
@@ -119,7 +124,9 @@ CHECKS = {
     'C17': dict(engine='E2-seq', category='exploration', technique='complete finite matrix (method x state x parameters) on live '
                 'instances brought to each Supvisors state by a real history, against the verifier\'s own gating table',
                 ref='DESIGN.md section 4, C17',
-                text='every public XML-RPC x every Supvisors state (Master and slave) x parameter grid: expected fault or acceptance '
+                text='every public XML-RPC x every Supvisors state (Master and slave; hand-made quiescent states plus one snapshot '
+                     'per (local state, role, believed Master state) class of an exhaustive 3-instance membership exploration) x '
+                     'parameter grid: expected fault or acceptance '
                      'from an independent table; rejected calls must emit nothing and leave every observable snapshot and the job '
                      'state unchanged',
                 note='status queries in FINAL and psutil-dependent methods are outside the matrix'),
@@ -128,8 +135,9 @@ CHECKS = {
                 ref='DESIGN.md section 4, C14',
                 text='the real get_supvisors_instance is evaluated on the complete product of load tables, ordered candidate '
                      'subsets, pending-request maps, loads, strategies and requesters of a 4-instance / 2-node cluster (also '
-                     'after a re-identification), and real SINGLE_INSTANCE / SINGLE_NODE application starts are observed on '
-                     'the wire; every answer must belong to the reference set',
+                     'after a re-identification), and real SINGLE_INSTANCE / SINGLE_NODE / ALL_INSTANCES application starts are '
+                     'observed on the wire and judged request by request (candidates in declared order, load table of that time, '
+                     'pending requests); every answer must belong to the reference set',
                 note='loads in {0,30,60,90} per instance, expected_loading in {0,40,70,100}; ties beyond the documented '
                      'tie-break are all acceptable'),
     'C18': dict(engine='E2-seq', category='exploration', technique='bounded-exhaustive input enumeration (generated rules documents on '
@@ -148,10 +156,10 @@ CHECKS = {
                      'prediction must send nothing and leave every status payload, the rules and the Starter / Stopper / handler '
                      'state identical, and must equal the placement requested by a real start on a cloned cluster in which every '
                      'process starts normally',
-                note='3 instances on 2 nodes, loads in {0,30,60}, 3 application shapes'),
+                note='3 instances on 2 nodes, loads in {0,30,60}, 4 application shapes, fresh or with programs EXITED by an earlier run'),
     'C20': dict(engine='E2-seq', category='exploration', technique=E2, ref='DESIGN.md section 4, C20',
                 text='every stream of samples up to the depth bound over the alphabet (time steps, key sets changing, counters '
-                     'wrapping, pid changes, unknown instance) is pushed into the real compilers; depth, alignment, period gate, '
+                     'wrapping together or one at a time, pid changes, unknown instance) is pushed into the real compilers; depth, alignment, period gate, '
                      'value ranges and integrated values are checked after every push against a reference model',
                 note='states merged on an abstract key (lengths, key sets, capped time since the reference sample, order '
                      'relations); the number of CPU cores is constant within a stream'),
